@@ -22,7 +22,7 @@ RULE = (
     "Histories of construct / add_mapping / drop_semi_singleton_mapping / check_semi_singleton_entry_exists / "
     "get_all_semi_singleton_instances / clear_semi_singleton over a fresh class family per case: A and B sharing "
     "one metaclass object, C(A) a subclass, D with its own default metaclass, E with a custom hashfunc, F whose instances are falsy, G whose __init__ refuses some arguments (a failed construction must register nothing), H with a custom hashfunc for which keyword ORDER matters, V a semi-singleton Vertex subclass whose instances all carry one explicit uid and join one universe; __init__ "
-    "counts its runs and stamps a serial number (the harness keeps no reference to instances between calls); an operation 'many' adds 260 further mappings to one class at once.  Argument values from a domain where key equality is unambiguous (ints incl. the "
+    "counts its runs and stamps a serial number (the harness keeps no reference to instances between calls); an operation 'many' adds 260 further mappings to one class at once; one keyword is called `default`; class W has a dispatching __new__ (W(...) yields an instance of its subclass W2 - 'an instance of the class called').  Argument values from a domain where key equality is unambiguous (ints incl. the "
     "hash-colliding -1/-2, strs, tuples, two UniverseLaws objects made alike - the model identifies library objects up to the library's own ==; never mixing 1/1.0/True), keyword-order permutations incl. equal nested dict values built in different insertion orders.  Bounded-exhaustive "
     "for all histories up to the stated length over {A,B,C} x 3 argument values, Hypothesis beyond.  Oracle = a dict "
     "model per class: live key => that instance and __init__ not re-run; new key => new object, type(obj) is the "
